@@ -87,8 +87,8 @@ func c10KInfos(db *gorm.DB, s c10Sch, sch *schema.Schema) *c10KTable {
 	return t
 }
 
-func c10KSetup(s c10Sch) (*gorm.DB, *sql.DB, *c10KTable, *schema.Schema) {
-	db, _, sqlDB := OpenRec(&gorm.Config{NowFunc: fixedNowFunc})
+func c10KSetup(s c10Sch) (*gorm.DB, *sql.DB, *c10KTable, *Recorder) {
+	db, rec, sqlDB := OpenRec(&gorm.Config{NowFunc: fixedNowFunc})
 	sch, _, err := c10Parse(db, s)
 	if err != nil {
 		panic(err)
@@ -140,7 +140,7 @@ func c10KSetup(s c10Sch) (*gorm.DB, *sql.DB, *c10KTable, *schema.Schema) {
 			panic(err)
 		}
 	}
-	return db, sqlDB, t, sch
+	return db, sqlDB, t, rec
 }
 
 // c10KKey: the key components a value gives (nil entry = zero); nz = number of non-zero components
@@ -201,7 +201,7 @@ type c10KOut struct {
 
 func c10KJudge(e *c10K, r *Result) (out c10KOut) {
 	c := &e.Case
-	db, sqlDB, t, _ := c10KSetup(c.Schema)
+	db, sqlDB, t, rec := c10KSetup(c.Schema)
 	defer sqlDB.Close()
 	typ := c.Schema.Type()
 	before := c10DumpTable(sqlDB, "k_")
@@ -215,6 +215,7 @@ func c10KJudge(e *c10K, r *Result) (out c10KOut) {
 			out = c10KOut{detail: map[string]interface{}{"panic": fmt.Sprint(p)}}
 		}
 	}()
+	rec.Reset()
 	tx := c10Exec(db, typ, c, func(tx *gorm.DB) *gorm.DB {
 		if e.CondKs != nil {
 			tx = tx.Where("k_ IN ?", e.CondKs)
@@ -223,8 +224,16 @@ func c10KJudge(e *c10K, r *Result) (out c10KOut) {
 	})
 	after := c10DumpTable(sqlDB, "k_")
 	failed := tx.Error != nil
-	out.detail = map[string]interface{}{"error": fmt.Sprint(tx.Error), "rows_affected": tx.RowsAffected, "sql": tx.Statement.SQL.String()}
-	out.executed = !failed && tx.Statement.SQL.Len() > 0
+	sqls := []string{}
+	for _, ev := range rec.Snapshot() {
+		if strings.HasPrefix(ev.SQL, "UPDATE") || strings.HasPrefix(ev.SQL, "DELETE") || strings.HasPrefix(ev.SQL, "INSERT") {
+			if ev.Kind == "exec" || ev.Kind == "query" || ev.Kind == "stmt_exec" || ev.Kind == "stmt_query" {
+				sqls = append(sqls, fmt.Sprint(ev.SQL, " ", ev.Args))
+			}
+		}
+	}
+	out.detail = map[string]interface{}{"error": fmt.Sprint(tx.Error), "rows_affected": tx.RowsAffected, "sql": sqls}
+	out.executed = !failed && len(sqls) > 0 // a statement reached the database (gorm sends none when SET is empty)
 	out.affected = tx.RowsAffected
 	out.newRows = len(after.New)
 	for k := 1; k <= t.n; k++ {
@@ -276,6 +285,9 @@ func c10KJudge(e *c10K, r *Result) (out c10KOut) {
 			if after.Old[k] != nil {
 				return bad("row %d (key %v) matches the conditions and the key of the deleted value but is still there", k, t.keys[k])
 			}
+		}
+		if r != nil && full && out.executed {
+			r.H("c10.keys.rows-affected-judged", fmt.Sprintf("delete targeted=%d", certain))
 		}
 		if full && out.executed && int(out.affected) != certain {
 			return bad("RowsAffected = %d, but %d row(s) match the conditions and the key", out.affected, certain)
@@ -394,6 +406,9 @@ func c10KJudge(e *c10K, r *Result) (out c10KOut) {
 				return bad("row %d: column %s is outside the write set but changed %q -> %q", k, in.Col, was, is)
 			}
 		}
+	}
+	if r != nil && full && out.executed && path != "save" {
+		r.H("c10.keys.rows-affected-judged", fmt.Sprintf("update targeted=%d", certain))
 	}
 	if full && out.executed && path != "save" && int(out.affected) != certain {
 		return bad("RowsAffected = %d, but %d row(s) match the conditions and the model key %v", out.affected, certain, key)
